@@ -75,6 +75,14 @@ CHECKS['C20'] = ('exploration',
          'Polynomial-identity completeness assumes the per-variable degree bound read off the code (tested by the dilated grids and a '
          'branch-freeness monitor). Multi-valued SpatialInertia / multi-valued SE3 left operands are outside the statement.',
          'DESIGN.md 2.3, 3/C20')
+CHECKS['C07'] = ('exploration',
+         'exhaustive product class x member x defect x magnitude x container form, with a harness-computed distance from the group',
+         'Every generator member of SO2/SE2/SO3/SE3 (and rotation inputs of UnitQuaternion, algebra matrices of Twist2/Twist3) x every '
+         'defect kind (single entry, scaling, noise, reflections, negation, last-row corruption; symmetric part / diagonal / last row for '
+         'twists) x magnitude 10^k, k = -12..0 x seven container forms x sub/super-class objects; membership predicates on all of '
+         'these and on every primitive-constructor output; unit / zero / skew predicates against their definitions outside the 1e-6 band.',
+         'Rejection is demanded only for distance > 1e-6 (polar decomposition distance, infinite for det < 0). Non-finite inputs are outside the quantifier.',
+         'DESIGN.md 3/C07')
 PENDING = {}
 
 def main():
